@@ -124,3 +124,17 @@ void c17_wideshift_bad(uint8_t *dst, uint32_t data, int bit_shift, int nbits) {
   for (int left = bit_shift + nbits; left > 0; left -= 8) { *dst++ = static_cast<uint8_t>(bits & 0xff); bits >>= 8; }
 }
 }  // namespace verif_control
+
+// ---- PAIRSTATE control (C17) ---------------------------------------------------------------------------
+namespace verif_control {
+struct ps17_Buffer {
+  long pos_ = 0; long seq_size_ = 0; bool bit_mode_ = false;
+  bool StartBitDecoding(bool sized, long n) {
+    if (sized) { if (n < 0) return false; seq_size_ = n; }
+    bit_mode_ = true;
+    return true;
+  }
+  void EndBitDecoding(long used) { bit_mode_ = false; pos_ += used > seq_size_ ? used : seq_size_; }
+};
+void ps17_use(ps17_Buffer *b) { b->StartBitDecoding(true, 3); b->EndBitDecoding(1); }
+}  // namespace verif_control
